@@ -1,4 +1,9 @@
 #![allow(clippy::all)]
+mod c01;
+mod c03;
+mod c04;
+mod c12;
+mod c15;
 mod c17;
 mod c18;
 mod c19;
@@ -26,6 +31,11 @@ fn main() {
         }
     };
     let code = match args[1].as_str() {
+        "C01" => c01::run(tier),
+        "C03" => c03::run(tier),
+        "C04" => c04::run(tier),
+        "C12" => c12::run(tier),
+        "C15" => c15::run(tier),
         "C17" => c17::run(tier),
         "C18" => c18::run(tier),
         "C19" => c19::run(tier),
